@@ -701,3 +701,40 @@ def constant_flag_states(fn, start_block=None):
                     if bool(known[n['v']]) != truth:
                         infeasible.add((b, si))
     return infeasible
+
+
+# ---------------------------------------------------------------------------------------------
+# identifying local variables / parameters structurally (never by their spelling)
+# ---------------------------------------------------------------------------------------------
+def vars_initialised_from(fn, call_nodes):
+    """ids of local variables whose declaration / assignment takes its value from one of the given call nodes"""
+    out = set()
+    cn = set(call_nodes)
+    for pos, s, n in fn.stmt_elems(('decl',)):
+        for v in n['vars']:
+            if 'init' in v and (fn.subtree(v['init']) & cn):
+                out.add(v['v'])
+    for pos, s, l, r in assignments(fn):
+        ln = fn.n(fn.strip(l))
+        if ln.get('k') == 'var' and (fn.subtree(r) & cn):
+            out.add(ln['v'])
+    return out
+
+
+def param_ids(fn, type_pred):
+    """variable ids of the parameters whose type satisfies type_pred"""
+    return [p['v'] for p in fn.d.get('params', []) if type_pred(p['ty'])]
+
+
+def is_var(fn, s, vids):
+    n = fn.n(fn.strip(s))
+    return n.get('k') == 'var' and n.get('v') in vids
+
+
+def returned_vars(fn):
+    out = set()
+    for pos, s, n in fn.stmt_elems(('return',)):
+        v = fn.n(fn.strip(n.get('sub', -1)))
+        if v.get('k') == 'var':
+            out.add(v['v'])
+    return out
